@@ -302,10 +302,11 @@ class Ref:
     def own_match(self, n, C):
         if '_ops_recognize' in C.__dict__:
             return all(self.rec_op(n, op) for op in C.__dict__['_ops_recognize'])
+        # an explicit tag naming the class itself replaces the scalar's own tag (K3 applied to scalar classes)
         if issubclass(C, enum.Enum):
-            return n[0] == 's' and n[1] in (P + 'str', P + 'bool')        # K5
+            return n[0] == 's' and n[1] in (P + 'str', P + 'bool', '!' + C.__name__)        # K5
         if self.is_strlike(C):
-            return n[0] == 's' and n[1] == P + 'str'
+            return n[0] == 's' and n[1] in (P + 'str', '!' + C.__name__)
         if n[0] != 'm':
             return False
         for name, T, req in self.params(C):
